@@ -1,6 +1,7 @@
 package main
 
 import (
+	"strconv"
 	"encoding/json"
 	"fmt"
 	"sort"
@@ -168,6 +169,7 @@ type cOp struct {
 	corr     int32
 	invokeUs int64
 	overlapped bool // another app call was in progress at some time during this call
+	healthy    []string // seeds that were healthy when the call began
 }
 
 type clientScen struct {
@@ -185,6 +187,9 @@ type clientScen struct {
 	seeds   []string
 	createdAt uint64
 	lastUnreachUs int64
+	closeInvoked bool
+	burst    chan struct{}          // closed (and replaced) whenever a metadata response is delivered to the client
+	metaResp map[*simConn]map[int32]bool
 }
 
 func scenClient(r *run) {
@@ -197,6 +202,22 @@ func scenClient(r *run) {
 		r.finish("infra", "generated config invalid: "+err.Error())
 	}
 	cl.onMetadata = cs.onMetadata
+	cs.burst = make(chan struct{})
+	cs.metaResp = map[*simConn]map[int32]bool{}
+	cl.onDeliver = func(conn *simConn, corr int32) {
+		cs.mu.Lock()
+		hit := cs.metaResp[conn][corr]
+		var ch chan struct{}
+		if hit {
+			delete(cs.metaResp[conn], corr)
+			ch = cs.burst
+			cs.burst = make(chan struct{})
+		}
+		cs.mu.Unlock()
+		if ch != nil {
+			close(ch) // readers waiting for "a refresh is being applied right now" all become runnable at this instant
+		}
+	}
 	cl.onDialFail = cs.markUnreach
 	cl.onFault = func(kind string) {
 		switch kind {
@@ -240,7 +261,7 @@ func scenClient(r *run) {
 	var actors []int
 	for i := range c.Workload {
 		op := &c.Workload[i]
-		if op.Op != "read" && op.Op != "refresh" {
+		if op.Op != "read" && op.Op != "refresh" && op.Op != "burst" {
 			continue
 		}
 		if _, ok := byActor[op.Actor]; !ok {
@@ -267,6 +288,7 @@ func scenClient(r *run) {
 	}
 	wg.Wait()
 	k.logf("client.Close()")
+	cs.closeInvoked = true
 	if err := client.Close(); err != nil {
 		k.logf("client.Close: %v", err)
 	}
@@ -379,6 +401,10 @@ func (cs *clientScen) onMetadata(br *mbroker, conn *simConn, corr int32, req *sa
 		w.Topics = append(w.Topics, wt)
 	}
 	cs.mu.Lock()
+	if cs.metaResp[conn] == nil {
+		cs.metaResp[conn] = map[int32]bool{}
+	}
+	cs.metaResp[conn][corr] = true
 	w.Idx = cs.nWrites
 	cs.nWrites++
 	op := &cOp{isWrite: true, w: w, call: 0, conn: conn, corr: corr}
@@ -388,6 +414,9 @@ func (cs *clientScen) onMetadata(br *mbroker, conn *simConn, corr int32, req *sa
 	cs.ops = append(cs.ops, op)
 	cs.mu.Unlock()
 	op.call = cs.r.k.stamp()
+	if len(op.inFlight) > 1 {
+		cs.r.probe("response-served-while-several-calls-in-progress")
+	}
 	if cs.anyDown() {
 		cs.markUnreach()
 	}
@@ -441,9 +470,38 @@ func (cs *clientScen) doOp(client sarama.Client, op *cf.Op) {
 	if cs.anyDown() {
 		cs.markUnreach()
 	}
+	if op.Op == "burst" {
+		// wait until a metadata response reaches the client (or a while), then read back-to-back in the same instant
+		cs.mu.Lock()
+		ch := cs.burst
+		cs.mu.Unlock()
+		t := time.NewTimer(150 * time.Millisecond)
+		select {
+		case <-ch:
+			cs.r.probe("read-burst-released-by-metadata-response")
+		case <-t.C:
+		case <-cs.r.closeNow:
+		}
+		t.Stop()
+		for _, a := range op.Args {
+			if cs.r.closing() {
+				return
+			}
+			f := strings.Split(a, ":")
+			sub := cf.Op{Op: "read", Actor: op.Actor, Arg: f[0]}
+			if len(f) == 3 {
+				sub.Topic = f[1]
+				n, _ := strconv.Atoi(f[2])
+				sub.Partition = int32(n)
+			}
+			cs.doOp(client, &sub)
+		}
+		return
+	}
 	if op.Op == "refresh" {
 		o := &cOp{refresh: true, refreshTopics: op.Args, actor: op.Actor, invokeUs: k.nowUs()}
 		healthy := cs.healthySeedsNow()
+		o.healthy = healthy
 		id := cs.begin(o)
 		k.logf("a%d RefreshMetadata(%v)", op.Actor, op.Args)
 		o.refreshErr = client.RefreshMetadata(op.Args...)
@@ -463,7 +521,7 @@ func (cs *clientScen) doOp(client sarama.Client, op *cf.Op) {
 		return
 	}
 	rd := cRead{Kind: op.Arg, Topic: op.Topic, Partition: op.Partition}
-	o := &cOp{rd: rd, actor: op.Actor}
+	o := &cOp{rd: rd, actor: op.Actor, invokeUs: k.nowUs(), healthy: cs.healthySeedsNow()}
 	id := cs.begin(o)
 	var out string
 	switch rd.Kind {
@@ -524,8 +582,30 @@ func (cs *clientScen) doOp(client sarama.Client, op *cf.Op) {
 
 func (cs *clientScen) onHang(dump string) {
 	frames := blockedSaramaFrames(dump)
-	cs.r.violate("C15.refresh-failed-despite-live-broker", "a client call did not return within the liveness bound; parked: %v", frames)
-	cs.r.violate("C12.close-hang", "client scenario did not finish; parked: %v", frames)
+	// A call that never returns breaks C15 only if a broker the client knew answered all along: the property
+	// promises success "whenever at least one seed or known broker answers", nothing about a cluster that is
+	// entirely out of reach.
+	cs.mu.Lock()
+	var stuck []*cOp
+	for _, o := range cs.active {
+		stuck = append(stuck, o)
+	}
+	cs.mu.Unlock()
+	flagged := false
+	for _, o := range stuck {
+		if seed := cs.cleanSeedSince(o.invokeUs, o.healthy); seed != "" {
+			cs.r.violate("C15.refresh-failed-despite-live-broker", "a client call did not return within the liveness bound although seed broker %s was reachable and fault-free all along; parked: %v", seed, frames)
+			flagged = true
+		}
+	}
+	if cs.closeInvoked {
+		cs.r.violate("C12.close-hang", "Client.Close did not return; parked: %v", frames)
+		flagged = true
+	}
+	if !flagged {
+		cs.r.probe("call-pending-for-ever-while-no-known-broker-reachable")
+		cs.r.hangBenign = true
+	}
 }
 
 // ---- post-run: linearizability against the reference view (porcupine) ----
